@@ -100,6 +100,48 @@ def replay_xl(k, cls_name="XL_BOMD"):
     return rp
 
 
+def replay_resume_slot(k):
+    """Real torch: the real run_from_checkpoint slot selection on a history buffer filled by the real one_step rule."""
+    def rp(model):
+        import torch
+        import seqm.MolecularDynamics as M
+
+        m = k + 1
+        got = {}
+
+        class Fake:
+            def __init__(self, **kw):
+                pass
+
+            def to(self, d):
+                return self
+
+            def run(self, **kw):
+                got["ctx"] = self._xl_ctx
+
+        bad = []
+        for sd in range(1, 3 * m + 1):
+            Pt = torch.zeros(m, 1, 1, 1)
+            for i in range(sd):  # same slot rule as one_step: P(i+1) stored at m-1-(i % m)
+                Pt[m - 1 - (i % m)] = float(i + 1)
+            ckpt = {"MD_type": "XL_BOMD", "xl_bomd_params": {"k": k}, "xl_ctx": {"Pt": Pt, "es_amp_t": None}, "step_done": sd, "steps": sd + 1, "damp": None,
+                    "seqm_parameters": {}, "timestep": 0.1, "Temp": 0.0, "output": {}, "remove_com": None, "rng": {}}
+            saved = (M.Molecular_Dynamics_Basic._load_checkpoint_base, M.Molecular_Dynamics_Basic._restore_rng, M.XL_BOMD)
+            M.Molecular_Dynamics_Basic._load_checkpoint_base = staticmethod(lambda path, device=None, c=ckpt: (c, None, torch.device("cpu"), True))
+            M.Molecular_Dynamics_Basic._restore_rng = staticmethod(lambda c: None)
+            M.XL_BOMD = Fake
+            try:
+                M.Molecular_Dynamics_Basic.run_from_checkpoint("x")
+            finally:
+                M.Molecular_Dynamics_Basic._load_checkpoint_base = staticmethod(saved[0])
+                M.Molecular_Dynamics_Basic._restore_rng = staticmethod(saved[1])
+                M.XL_BOMD = saved[2]
+            if float(got["ctx"]["P"]) != float(sd):
+                bad.append({"step_done": sd, "P_selected_is_from_step": float(got["ctx"]["P"])})
+        return {"reproduced": bool(bad), "k": k, "wrong_resume_points": bad[:6]}
+    return rp
+
+
 def task_table(ctx):
     """O1: what __init__ builds is the published scheme."""
     from spec.xl_table import published
@@ -175,6 +217,66 @@ def task_fixed_point(ctx):
     ctx.assume_note("shape: 2x2 density block of one molecule; the propagation is elementwise in the matrix entries")
 
 
+def resume_rule(ctx):
+    """the real run_from_checkpoint on a ghost checkpoint with a symbolic step_done: the density handed to the resumed
+    XL-BOMD run is the newest history entry P(step_done), for every buffer phase."""
+    import seqm.MolecularDynamics as M
+
+    fn_resume = M.Molecular_Dynamics_Basic.run_from_checkpoint
+    for k in KS:
+        m = k + 1
+        sd = integer("step_done")
+        made = {}
+
+        class FakeXL:
+            def __init__(self, **kw):
+                made["kwargs"] = kw
+                made["obj"] = self
+
+            def to(self, device):
+                return self
+
+            def run(self, **kw):
+                made["run"] = kw
+
+        def Phist(lab):
+            return Sym(E.uf("Phist", (E.node_of(lab),), E.R))
+
+        def thunk():
+            assume(sd >= 1)
+            Pt = st.tensor([[[[Phist(sd - ((sd % m + j) % m))]]] for j in range(m)])
+            ckpt = {"MD_type": "XL_BOMD", "xl_bomd_params": {"k": k}, "xl_ctx": {"Pt": Pt, "es_amp_t": None}, "step_done": sd, "steps": sd + 5, "damp": None,
+                    "seqm_parameters": {}, "timestep": real("dt"), "Temp": real("Temp"), "output": {}, "remove_com": None, "rng": {}}
+            mol = ghost_molecule(0)
+
+            def load(path, device=None):
+                return ckpt, mol, st._CPU, True
+
+            saved = (M.Molecular_Dynamics_Basic._load_checkpoint_base, M.Molecular_Dynamics_Basic._restore_rng)
+            M.Molecular_Dynamics_Basic._load_checkpoint_base = staticmethod(load)
+            M.Molecular_Dynamics_Basic._restore_rng = staticmethod(lambda c: None)
+            try:
+                fn_resume("ckpt.pt")
+            finally:
+                M.Molecular_Dynamics_Basic._load_checkpoint_base = staticmethod(saved[0])
+                M.Molecular_Dynamics_Basic._restore_rng = staticmethod(saved[1])
+            return made["obj"]._xl_ctx, made["kwargs"], made["run"]
+
+        ex = ctx.explore(thunk, stubs={MD + ":XL_BOMD": FakeXL, MD + ":KSA_XL_BOMD": FakeXL}, name="run_from_checkpoint k=%d" % k)
+        phases = 0
+        for p in ex.paths:
+            if p.raised is not None:
+                ctx.fail("k=%d.resume.raises@p%d" % (k, p.path_id), repr(p.raised) + p.notes.get("traceback", "")[-600:])
+                continue
+            phases += 1
+            xl, kw, runkw = p.value
+            ctx.prove("k=%d.resume.P-is-the-newest-history-entry@p%d" % (k, p.path_id), xl["P"].a.reshape(-1)[0] == Phist(sd), pc=p.pc, replay=replay_resume_slot(k))
+            ctx.prove("k=%d.resume.history-buffer-passed-on-unchanged@p%d" % (k, p.path_id), E.const(xl["Pt"].a.shape == (m, 1, 1, 1)), pc=p.pc)
+            ctx.prove("k=%d.resume.starts-at-step_done@p%d" % (k, p.path_id), S(kw["step_offset"]) == sd, pc=p.pc)
+        if phases != m and not any(r["status"] == "refuted" for r in ctx.results):
+            ctx.error("k=%d.resume.phases" % k, "expected %d buffer phases, explored %d" % (m, phases))
+
+
 def task_history(ctx):
     """O3: one_step(step=i) keeps the circular buffer invariant  Pt[j] = P(i - ((i mod m + j) mod m))  and executes the
     published recurrence with kappa' = c*kappa; _do_integrator_step stores the result; the resume rule selects P(step_done)."""
@@ -236,15 +338,7 @@ def task_history(ctx):
         sd = integer("step_done")
         slot = (m - 1) - ((sd - 1) % m)
         ctx.prove("k=%d.resume-slot-has-age-0" % k, ((sd % m + slot) % m) == 0, pc=[sd >= 1])
-    # the resume rule is re-stated above; check that the source still contains exactly that rule
-    import inspect, seqm.MolecularDynamics as M
-
-    src = inspect.getsource(M.Molecular_Dynamics_Basic.run_from_checkpoint)
-    anchor = 'cindx = (ckpt["step_done"] - 1) % xl_m' in src and "P = Pt[(xl_m - 1 - cindx)].clone()" in src and 'xl_m = ckpt["xl_bomd_params"]["k"] + 1' in src
-    if anchor:
-        ctx.ok("resume-rule-anchor", "source-anchor")
-    else:
-        ctx.error("resume-rule-anchor", "run_from_checkpoint no longer contains the slot rule the obligation restates")
+    resume_rule(ctx)
     ctx.assume_note("A6: the electronic-structure driver is a stub that only sets molecule.force")
 
 
